@@ -9,10 +9,12 @@ import xyzpy as xyz
 
 REPO = os.environ.get("XYZPY_VERIF_REPO", "/repo")
 FN_MODULE = '''
-import os
+import os, time
 def fn(a):
     with open(os.path.join(os.path.dirname(os.path.abspath(__file__)), "calls.log"), "a") as f:
         f.write("%d\\n" % a)
+    if os.environ.get("XYZ_UNEVEN") and a % 2:
+        time.sleep(0.6)          # the first case of every batch finishes last when the cases run in parallel
     return 10 * a
 '''
 TASKVAR = {"sge": "SGE_TASK_ID", "pbs": "PBS_ARRAY_INDEX", "slurm": "SLURM_ARRAY_TASK_ID"}
@@ -44,7 +46,8 @@ def scenario(scheduler, mode, state, nb, opts):
             import fnmod
             crop = xyz.Crop(fn=fnmod.fn, name="c", parent_dir=d, batchsize=2)
             N = 2 * nb
-            crop.sow_combos({"a": list(range(1, N + 1))})
+            if state != "stale-handle":
+                crop.sow_combos({"a": list(range(1, N + 1))})
             pre = []
             if state == "some-results":
                 pre = [b for b in range(1, nb + 1) if b % 2 == 0] or [1]
@@ -56,9 +59,24 @@ def scenario(scheduler, mode, state, nb, opts):
             if state.startswith("explicit"):
                 k = int(state.split(":")[1])
                 batch_ids = tuple(range(nb, nb - k, -1))          # a non-trivial order
+            if state == "regrow":
+                pre = [2]
+                crop.grow((2,))
+                batch_ids = (2, 3)                                # an explicitly requested batch is grown also when it has a result already
+            handle = crop
+            if state == "stale-handle":
+                # a second handle on the crop looked at it while it had 3 batches; the crop is then reaped and sown again with nb batches
+                c0 = xyz.Crop(fn=fnmod.fn, name="c", parent_dir=d, batchsize=2)
+                c0.sow_combos({"a": list(range(1, 7))})
+                handle = xyz.Crop(fn=fnmod.fn, name="c", parent_dir=d)
+                handle.calc_progress()
+                c0.grow_missing()
+                c0.reap()
+                crop.sow_combos({"a": list(range(1, N + 1))})
+            uneven = {"XYZ_UNEVEN": "1"} if (opts.get("num_workers") or 0) > 1 else {}
             want = list(batch_ids) if batch_ids is not None else [b for b in range(1, nb + 1) if b not in pre]
             open(os.path.join(d, "calls.log"), "w").close()
-            script = crop.gen_cluster_script(scheduler, batch_ids, mode=mode, launcher=sys.executable, conda_env=False, output_directory=os.path.join(d, "out"),
+            script = handle.gen_cluster_script(scheduler, batch_ids, mode=mode, launcher=sys.executable, conda_env=False, output_directory=os.path.join(d, "out"),
                                              **opts)
             # the embedded Python program must be valid
             m = re.search(r"read -r -d '' SCRIPT << EOM\n(.*?)\nEOM\n", script, re.S)
@@ -84,11 +102,11 @@ def scenario(scheduler, mode, state, nb, opts):
                         return [f"array range {lo}-{hi} for {len(want)} tasks"]
                     tasks = list(range(lo, hi + 1))
                 for t in tasks:
-                    err = run_script(script, d, {} if t is None else {TASKVAR[scheduler]: str(t)})
+                    err = run_script(script, d, dict({} if t is None else {TASKVAR[scheduler]: str(t)}, **uneven))
                     if err:
                         return [err + (f" (task {t})" if t is not None else "")]
             else:
-                err = run_script(script, d, {})
+                err = run_script(script, d, dict(uneven))
                 if err:
                     return [err]
             calls = sorted(int(l) for l in open(os.path.join(d, "calls.log")) if l.strip())
@@ -149,6 +167,17 @@ for scheduler, mode in itertools.product(("sge", "pbs", "slurm"), ("array", "sin
             pr = [f"{type(e).__name__}: {e}"]
         if pr:
             finish(True, input=dict(scheduler=scheduler, mode=mode, state=state, batches=nb, options=opts), observed=pr, tried=tried)
+# cases of a batch run in parallel and finish out of order; an explicitly requested batch that is already grown; a stale crop handle
+for k_, (scheduler, mode, state, nb, opts) in enumerate([("sge", "array", "fresh", 2, dict(num_procs=2, num_workers=2)), ("slurm", "single", "fresh", 2, dict(num_procs=2, num_workers=2)),
+                                                         ("pbs", "single", "regrow", 3, dict(num_procs=1)), ("slurm", "array", "regrow", 3, dict(num_procs=1)),
+                                                         ("sge", "array", "stale-handle", 5, dict(num_procs=1)), ("pbs", "array", "stale-handle", 2, dict(num_procs=1))]):
+    tried += 1
+    try:
+        pr = scenario(scheduler, mode, state, nb, opts)
+    except Exception as e:
+        pr = [f"{type(e).__name__}: {e}"]
+    if pr:
+        finish(True, input=dict(scheduler=scheduler, mode=mode, state=state, batches=nb, options=opts), observed=pr, tried=tried)
 for nb, pre, rel in ((2, [], False), (3, [2], False), (2, [1], True)):
     tried += 1
     pr = cli_scenario(nb, pre, rel)
